@@ -224,7 +224,8 @@ func ScheduleUnmanageHAProxyEndpoints(haproxyEndpointsToRemove []*HAProxyEndpoin
 	}
 	go func() {
 		clock.Sleep(staleVersionTTL)
-		unmanageHAProxyEndpointsVoided(haproxyEndpointsToRemove)
+		// a reload in the meantime may have registered some of them again
+		unmanageHAProxyEndpointsVoided(EndpointsStillToUnmanage(haproxyEndpointsToRemove))
 	}()
 }
 
@@ -232,6 +233,10 @@ func scheduleUnmanageHAProxyGlobal() {
 	clock := contextmanager.Get().GetClock()
 	go func() {
 		clock.Sleep(staleVersionTTL)
+		if IsManageAllStillRequested() {
+			// a reload in the meantime has enabled a global plugin again
+			return
+		}
 		unmanageGlobalVoided()
 	}()
 }
